@@ -25,36 +25,27 @@ def scenario_interp(ctx):
     from ..scenario import json_loads
     it = Interp(ctx, overrides={("feature", "dict_class"): TypeVal("dict")})
     it.summaries["helpers._unjsonify"] = lambda i, pos, kw, node: json_loads(i, pos[:1], {}, node)
-    it.construct_real |= {"feature.Feature"}
+    it.construct_real |= {"feature.Feature", "*"}      # scenario mode: package classes are constructed for real (helper objects of a refactoring)
     return it
 
 
 class Import:
-    """One importer object over a fresh (or given) model database."""
+    """One importer object over a fresh (or given) model database, built by the importer's own constructor."""
 
-    def __init__(self, ctx, cls, db=None, **attrs):
+    def __init__(self, ctx, cls, db=None, lines=(), **attrs):
         self.ctx, self.cls = ctx, cls
-        self.it = scenario_interp(ctx)
-        self.it.MAX_TRACES = 64
-        self.conn = install(self.it, db)
-        if db is None:
-            self.conn.db.script(ctx.folder.const("constants", "SCHEMA"))
+        attrs.setdefault("merge_strategy", "error")
+        self.it, me, self.conn = make_creator(ctx, cls, db=db, lines=lines, **attrs)
+        ctx.require(isinstance(me, Opaque), "%s(...) raises %s on a well-formed scenario" % (cls, me[1:] if isinstance(me, tuple) else me))
+        self.me = me
         self.db = self.conn.db
-        self.me = Opaque("self", cls)
-        base = dict(conn=self.conn, merge_strategy="error", id_spec="ID" if cls == "_GFFDBCreator" else {"gene": "gene_id", "transcript": "transcript_id"},
-                    force_merge_fields=[], verbose=False, default_encoding="utf-8", _autoincrements=collections.defaultdict(int),
-                    _keep_tempfiles=False, disable_infer_genes=False, disable_infer_transcripts=False, transcript_key="transcript_id",
-                    gene_key="gene_id", subfeature="exon", directives=[], dialect={"fmt": "gff3" if cls == "_GFFDBCreator" else "gtf"},
-                    pragmas={}, dbfn="db.sqlite")
-        base.update(attrs)
-        base.setdefault("iterator", IterVal([], dialect=base["dialect"], directives=base["directives"]))
-        self.me.attrs.update(base)
         self.traces = []
 
     def call(self, method, **args):
         f = self.ctx.proj.method(self.ctx.proj.cls("create." + self.cls), method)
         self.ctx.require(f is not None, "importer %s lost its method %s" % (self.cls, method))
         self.ctx.touch(f)
+        self.it.summaries.pop("iterators.DataIterator", None)
         try:
             traces = self.it.run(f, args, self_obj=self.me, copy_args=False)
         except Unsupported as e:
@@ -83,6 +74,7 @@ def gff_lines(which="family"):
             feature("L7", "exon", 2000, 2100, {"ID": ["o1"], "Parent": ["nowhere"]}),
             feature("L8", "exon", 400, 450, {"ID": ["e3"], "Parent": ["t2", "t2"]}),
             feature("L9", "region", 1, 200000, {"Note": ["no id"]}, strand="."),
+            feature("L10", "exon", 600, 650, {"ID": ["e5"], "Parent": ["t1", "g1"]}),      # names its transcript and that transcript's gene: level 1 and level 2 of g1
         ]
     raise ValueError(which)
 
@@ -137,10 +129,11 @@ def run_create(ctx, cls, lines, directives=None, dialect=None, **attrs):
     """_DBCreator.create() on an empty model database."""
     from .. import minidb
     db = minidb.MiniDB()
-    im = Import(ctx, cls, db=db, **attrs)
     ds = directives if directives is not None else []
-    im.me.attrs["iterator"] = IterVal(lines, dialect=dialect or im.me.attrs["dialect"], directives=ds)
-    im.me.attrs["directives"] = ds
+    kw = dict(attrs)
+    if dialect is not None:
+        kw["dialect"] = dialect
+    im = Import(ctx, cls, db=db, lines=lines, directives=ds, **kw)
     t = im.call("create")
     return im, t
 
@@ -309,3 +302,44 @@ def open_feature_db(ctx, db, dbfn="db.sqlite", **kw):
         return iv
     it.summaries["iterators.DataIterator"] = s_dataiterator
     return it, me, conn, t
+
+
+def make_creator(ctx, cls, db=None, lines=(), it=None, **kwargs):
+    """An importer built by its own constructor (evaluated), over the model database: every attribute the constructor sets
+    exists, whatever it is called.  Returns (evaluator, importer object, connection)."""
+    from ..absint import TypeVal
+    it = it or scenario_interp(ctx)
+    it.MAX_TRACES = 64
+    conn = install(it, db)
+    if db is None:
+        conn.db.script(ctx.folder.const("constants", "SCHEMA"))
+    fmt = "gff3" if cls == "_GFFDBCreator" else "gtf"
+    dialect = kwargs.pop("dialect", {"fmt": fmt})
+    directives = kwargs.pop("directives", None)
+    iv = IterVal(list(lines), dialect=dialect, directives=directives if directives is not None else [])
+    it.summaries["iterators.DataIterator"] = lambda i, pos, kw, node: iv
+    kwargs.setdefault("id_spec", "ID" if cls == "_GFFDBCreator" else {"gene": "gene_id", "transcript": "transcript_id"})
+    kwargs.setdefault("verbose", False)
+    args = dict(data=iv, dbfn="db.sqlite", dialect=dialect, **kwargs)
+    if directives is not None:
+        args["directives"] = directives
+    env = {"__module__": "create", "__args__": args}
+    import ast as _ast
+    call = _ast.parse("create_cls(**__args__)", mode="eval").body
+    for n in _ast.walk(call):
+        n.lineno = n.col_offset = 0
+        n.end_lineno = n.end_col_offset = 0
+    env["create_cls"] = TypeVal("create." + cls)
+    from ..absint import Trace, RaiseEx
+    it.choices, it.ptr, it.pending = [], 0, []
+    it.trace = Trace()
+    it.depth = 0
+    it.overrides = dict(it.overrides)
+    try:
+        me = it.eval(call, env)
+    except Unsupported as e:
+        ctx.require(False, "%s(...) outside the analysable subset: %s" % (cls, e))
+    except RaiseEx as e:
+        return it, ("raise", e.exc, e.msg), conn
+    ctx.require(not it.pending, "%s(...) forks on concrete arguments" % cls)
+    return it, me, conn
